@@ -268,10 +268,24 @@ func runStop(c *core.Ctx, s *run.Session, l *hist.Layout, start hist.Pos, scn st
 		rn := s.Start(hs, nil)
 		blocked := s.WaitBlocked(rn, maxWait)
 		if blocked {
+			last, stable := "", 0
 			for i := 0; i < 4000; i++ {
 				conns := s.M.Conns()
-				if len(conns) > 0 && conns[len(conns)-1].Snapshot().HoldReached && s.ReaderState() == "network" {
-					break
+				if len(conns) > 0 && conns[len(conns)-1].Snapshot().HoldReached {
+					st := s.ReaderState()
+					if st == "network" {
+						break
+					}
+					// a library that reads nothing while the handler runs never
+					// gets there: go on once its state no longer changes
+					if st == last && st != "running" {
+						if stable++; stable >= 20 {
+							break
+						}
+					} else {
+						stable = 0
+					}
+					last = st
 				}
 				time.Sleep(250 * time.Microsecond)
 			}
